@@ -1,7 +1,7 @@
 """developer tool: dump undischarged obligations of one contract as SMT-LIB and try the CLI solvers"""
 import sys,time,os,subprocess; sys.path.insert(0,'/verif')
 from pyvc.repo import Repo; from pyvc.engine import Engine; from pyvc.contracts import Spec, verify_function; from pyvc import solve
-repo=Repo(os.environ.get('REPO','/repo')); spec=Spec(); spec.load_dir('/verif/contracts',{'PRICES':[1],'BETDAQ_PRICES':[1]})
+repo=Repo(os.environ.get('REPO','/repo')); spec=Spec(); spec.load_dir('/verif/contracts',{'PRICES':[1],'BETDAQ_PRICES':[1],'PRICES_FLOAT':[1,2]})
 eng=Engine(repo,spec)
 c=spec.contracts[sys.argv[1]]
 r=verify_function(eng,c)
